@@ -1449,6 +1449,27 @@ func runL2History(g *gen, prof l2profile, nops int, stats map[string]int) (strin
 			do(&sop{kind: "commit", c: c})
 		}
 	}
+	if prof.changes && !prof.vacuum && len(w.versions) >= 2 && g.r.Intn(2) == 0 {
+		// versions that a vacuum has deleted: a diff that names one of them must fail, not answer
+		// from the part it can still read
+		for c := 0; c < nconn; c++ {
+			do(&sop{kind: "refresh", c: c})
+		}
+		do(&sop{kind: "wt", c: 0, t: nextT()})
+		do(&sop{kind: "ins", c: 0, key: sval{tag: 'I', i: 777}, vals: nullVals(ncols)})
+		do(&sop{kind: "vacuum", c: 0, before: 4102444800})
+		for c := 1; c < nconn; c++ {
+			do(&sop{kind: "refresh", c: c})
+		}
+		do(&sop{kind: "version", c: 0})
+		cur := w.versions[len(w.versions)-1]
+		for i := 0; i < 3 && i < len(w.versions)-1; i++ {
+			old := w.versions[g.r.Intn(len(w.versions)-1)]
+			do(&sop{kind: "changes", c: 0, from: old, to: cur})
+			do(&sop{kind: "changes", c: 0, from: cur, to: old})
+		}
+		stats["script_changes_after_vacuum"]++
+	}
 	// final convergence view: every writer refreshes twice, then a fresh read-only reader
 	if nconn > 1 {
 		for r := 0; r < 2; r++ {
